@@ -40,6 +40,16 @@ def reprTarget : Cls → Cls
   | .convexPolyhedron => .polyhedron
   | c => c
 
+/-- class that `from_gsd_type_shapes(spec, dimensions)` must return for the spec of a shape of class
+    `c`, for ANY value of the `dimensions` argument: the argument decides between the 2-D and the 3-D
+    curved class that share a GSD type, and is ignored for every vertex based class. `none`: the spec
+    of an ellipse has no `c`, reading it as a 3-D ellipsoid is a `KeyError`. -/
+def gsdDispatch (dim : Nat) (convex : Bool) : Cls → Option Cls
+  | .circle | .sphere => some (if dim = 2 then .circle else .sphere)
+  | .ellipse => if dim = 2 then some .ellipse else none
+  | .ellipsoid => some (if dim = 2 then .ellipse else .ellipsoid)
+  | c => some (gsdTarget convex c)
+
 structure GsdRoundTrip (convex : Bool) (s s' : Shape α) : Prop where
   cls : s'.cls = gsdTarget convex s.cls
   verts : s'.verts = s.verts
@@ -121,5 +131,10 @@ structure HoomdCentredCurved (M : Meas α) (d : Dict α) : Prop where
     means for every class; for the real getters this is property C09 -/
 def Equivariant (M : Meas α) : Prop :=
   ∀ (vs : List (V3 α)) (t : V3 α), vs ≠ [] → M.cen (vs.map fun v => v + t) = M.cen vs + t
+
+/-- … at one vertex array (all that `to_hoomd` of that shape needs; for the polygon getters of C04 it
+    holds for planar simple cycles, for the polyhedron getters of C01 / C02 for closed surfaces) -/
+def EquivariantAt (M : Meas α) (vs : List (V3 α)) : Prop :=
+  ∀ t : V3 α, M.cen (vs.map fun v => v + t) = M.cen vs + t
 
 end C19.Spec
